@@ -29,33 +29,35 @@ def weights_in(W, lo, hi):
     return all(implies(W[a, b] != 0, lo <= W[a, b] and W[a, b] <= hi) for a in range(len(W)) for b in range(len(W)))
 
 
-@contract("sempler.generators.dag_avg_deg", cases={'return_ordering': [False, True], 'random_state': ['int']})
+@contract("sempler.generators.dag_avg_deg", cases={'return_ordering': [False, True], 'random_state': ['int', 'none']})
 def dag_avg_deg(p: Int, k: Real, w_min: Real, w_max: Real):
     requires(p >= 2, 0 <= k, k <= p - 1, w_min <= w_max)
     let(W=result[0] if return_ordering else result)
     # the returned matrix, entry by entry, in terms of the generator's draws (one Bernoulli(k/(p-1)) test per unordered pair)
-    ensures(same_array(W, dag_avg_deg_spec(p, k, w_min, w_max, random_state)[0]))
+    ensures(implies(random_state is not None, same_array(W, dag_avg_deg_spec(p, k, w_min, w_max, random_state)[0])))
     ensures(W.shape[0] == p and W.shape[1] == p, zero_diag(W), weights_in(W, w_min, w_max), no_two_cycles(W))
     ensures(acyclic(W))
-    hint(acyclic_if_ranked(result[0] if return_ordering else result, lambda u: dag_avg_deg_spec(p, k, w_min, w_max, random_state)[1][u]), at='return')
+    hint(acyclic_if_ranked(result[0] if return_ordering else result, lambda u: permutation[u]), at='return')
     # the ordering returned on request is a permutation of the nodes and a topological order of the returned graph
     ensures(implies(return_ordering, is_permutation(result[1], p)
                     and all(implies(result[0][result[1][a], result[1][b]] != 0, a < b) for a in range(p) for b in range(p))))
+    reproducible(private=True, when=p >= 3)
     fresh(result)
 
 
-@contract("sempler.generators.dag_full", cases={'return_ordering': [False, True], 'random_state': ['int']})
+@contract("sempler.generators.dag_full", cases={'return_ordering': [False, True], 'random_state': ['int', 'none']})
 def dag_full(p: Int, w_min: Real, w_max: Real):
     requires(p >= 0, w_min <= w_max)
     let(W=result[0] if return_ordering else result)
-    ensures(same_array(W, dag_full_spec(p, w_min, w_max, random_state)[0]))
+    ensures(implies(random_state is not None, same_array(W, dag_full_spec(p, w_min, w_max, random_state)[0])))
     ensures(W.shape[0] == p and W.shape[1] == p, zero_diag(W), weights_in(W, w_min, w_max), no_two_cycles(W))
     ensures(acyclic(W))
-    hint(acyclic_if_ranked(result[0] if return_ordering else result, lambda u: dag_full_spec(p, w_min, w_max, random_state)[1][u]), at='return')
+    hint(acyclic_if_ranked(result[0] if return_ordering else result, lambda u: permutation[u]), at='return')
     # complete whenever 0 is outside the weight range
     ensures(implies(w_min > 0 or w_max < 0, all(implies(a != b, W[a, b] != 0 or W[b, a] != 0) for a in range(p) for b in range(p))))
     ensures(implies(return_ordering, is_permutation(result[1], p)
                     and all(implies(result[0][result[1][a], result[1][b]] != 0, a < b) for a in range(p) for b in range(p))))
+    reproducible(private=True, when=p >= 2)
     fresh(result)
 
 
@@ -75,7 +77,7 @@ def good_target_list(L, p, lo, hi):
     return lo <= len(L) and len(L) <= hi and distinct(L) and all(0 <= L[t] and L[t] < p for t in range(len(L)))
 
 
-@contract("sempler.generators.intervention_targets", cases={'size': ['int', 'pair', 'triple'], 'replace': [True, False], 'random_state': ['int']})
+@contract("sempler.generators.intervention_targets", cases={'size': ['int', 'pair', 'triple'], 'replace': [True, False], 'random_state': ['int', 'none']})
 def intervention_targets(p: Int, K: Int) -> ListOf(ListOf(Int)):
     requires(p >= 1, K >= 0, min_size_of(size) >= 0, min_size_of(size) <= max_size_of(size))
     raises(ValueError, when=(isinstance(size, tuple) and len(size) != 2) or max_size_of(size) > p or (not replace and max_size_of(size) * K > p))
@@ -84,6 +86,7 @@ def intervention_targets(p: Int, K: Int) -> ListOf(ListOf(Int)):
     # without replacement no variable occurs in two interventions
     ensures(implies(not replace, all(implies(m != m2, result[m][a] != result[m2][b])
                                      for m in range(K) for m2 in range(K) for a in range(len(result[m])) for b in range(len(result[m2])))))
+    reproducible(private=True, nondegenerate=False)
     fresh(result)
 
 
